@@ -1,5 +1,4 @@
-import HexProofs.Writes.Twin
-import HexProofs.Lib.IntInst
+import HexProofs.Writes.PropsLib
 /-
 C13 – Indicators sharing candles do not interfere with one another (every float carrier `F`).
 
@@ -8,13 +7,13 @@ Proved here, from the writes-only theorem of the engine (`HexProofs/Writes/Engin
   (b) `purge(b)`, `calculate(b)`, `calculate_index(b, i)`, `recalculate(b)`, `remove_indicator(b)` leave every
       reading stored under a name of another member `a` (disjoint name sets) exactly as it was – on every
       candle of every manager – and `reading_as_list` of `a` returns the same column.
-  (c) `presence`: for a member `a` without its own timeframe, the readings of `a` are the same whatever other
-      members are registered next to it, in whatever order, under any program of
+  (c) `presence`: for a member `a` handed to the constructor (with or without its own timeframe), the readings
+      of `a` are the same whatever other members are registered next to it, in whatever order, under any program of
       `calculate / calculate_index / purge / recalculate / append` – provided `a`'s tree neither writes under nor
       can read a name of the other members (distinct names, no input dependency).  Proof: both Hexitals are in
       step with the same standalone twin (`member_twin`, built on the read-set locality of all 28 kinds).
       The programs may also add further members and remove other members.
-Stated, not proved (`presence_FULL`): the same for a member WITH its own timeframe.
+Stated, not proved (`presence_FULL`): the same when `a` itself is added later by `add_indicator` (needs C01).
 -/
 namespace Hex.C13
 open Hex
@@ -35,29 +34,10 @@ values, and every entry stored under any other key is as it was. -/
 theorem purge_only (s : IndState F) : AgreeOff s.tree.allNames s.mgr.candles s.purge.mgr.candles :=
   purgeNames_agree s.tree.allNames s.mgr.candles
 
-/-! ### (b) operations aimed at another member -/
-
-/-- two members of a Hexital, registered under the names of their trees, whose trees write under
-disjoint sets of names (own name, sub-indicators, managed helpers – at every depth) -/
-structure Pair (h : Hexital F) (a b : String) (ta tb : HxInd F) : Prop where
-  ha : dlookup a h.indicators = some ta
-  hb : dlookup b h.indicators = some tb
-  disjoint : ∀ k, k ∈ ta.tree.allNames → k ∉ tb.tree.allNames
-
-/-- what "the readings of `a` are unchanged" means: (i) every reading entry stored under a name of
-`a`'s tree is the same on every candle of every manager, in both dicts; (ii) `a` is still registered
-with the same tree on the same manager; (iii) `reading_as_list(name)` returns the same column for
-every `name` that is not one of `b`'s keys (`name` itself and its part before the dot) -/
-structure Untouched (a : String) (ta tb : HxInd F) (h h' : Hexital F) : Prop where
-  stored : StoredSame ta.tree.allNames h.managers h'.managers
-  registered : ∃ ta', dlookup a h'.indicators = some ta' ∧ ta'.tree = ta.tree ∧ ta'.mgrKey = ta.mgrKey
-  asList : ∀ name, name ∉ tb.tree.allNames → (splitDot name).headD "" ∉ tb.tree.allNames →
-    (splitDot name).headD "" ≠ tb.tree.name → h'.readingAsList name = h.readingAsList name
-
-theorem untouched_of_agree {h h' : Hexital F} {a b : String} {ta tb : HxInd F} (p : Pair h a b ta tb)
-    (hh : HxAgreeOff tb.tree.allNames h h') : Untouched a ta tb h h' :=
-  ⟨hh.mgrs.storedSame p.disjoint, hh.lookup a ta p.ha,
-   fun name hk hp _ => Hexital.readingAsList_agree hh name hk hp⟩
+/-! ### (b) operations aimed at another member
+`Pair h a b ta tb`: both registered, name sets of the two trees disjoint; `Untouched a ta tb h h'`: every
+reading entry stored under a name of `a`'s tree is the same on every candle of every manager, `a` is still
+registered with the same tree, and `reading_as_list` returns the same columns (HexProofs/Writes/PropsLib.lean). -/
 
 /-- **`Hexital.purge(b)` does not touch the readings of `a`.** -/
 theorem purge_other (h h' : Hexital F) (a b : String) (ta tb : HxInd F) (p : Pair h a b ta tb)
@@ -82,21 +62,8 @@ theorem recalculate_other (h h' : Hexital F) (a b : String) (ta tb : HxInd F) (p
 /-- **`Hexital.remove_indicator(b)` does not touch the readings of `a`** (`b` registered under the
 name of its tree, as `_validate_indicators` does). -/
 theorem removeIndicator_other (h h' : Hexital F) (a b : String) (ta tb : HxInd F) (p : Pair h a b ta tb)
-    (hkey : tb.tree.name = b) (hop : h.removeIndicator (some b) = .ok h') : Untouched a ta tb h h' := by
-  obtain ⟨h1, e1, rfl⟩ := Hexital.removeIndicator_eq h h' b hop
-  have u := purge_other h h1 a b ta tb p e1
-  have hab : b ≠ a := by
-    intro e; subst e
-    have := p.ha; rw [p.hb] at this; cases this
-    exact p.disjoint _ (Ind.name_mem_names _) (Ind.name_mem_names _)
-  refine ⟨u.stored, ?_, fun name hk hp hne => ?_⟩
-  · obtain ⟨ta', hl, ht, hm⟩ := u.registered
-    exact ⟨ta', by simp [dlookup_derase, hab, hl], ht, hm⟩
-  · rw [← u.asList name hk hp hne]
-    unfold Hexital.readingAsList
-    have : b ≠ (splitDot name).headD "" := fun e => hne (e.symm.trans hkey.symm)
-    simp only [dlookup_derase, this, if_false]
-    rfl
+    (hkey : tb.tree.name = b) (hop : h.removeIndicator (some b) = .ok h') : Untouched a ta tb h h' :=
+  removeIndicator_untouched h h' a b ta tb p hkey hop
 
 /-- any sequence of `purge / calculate / recalculate / calculate_index` aimed at `b` -/
 inductive OpOnB
@@ -115,7 +82,7 @@ theorem program_other (ops : List OpOnB) :
       ops.foldlM (fun h op => op.run b h) h = .ok h' → Untouched a ta tb h h' := by
   intro h h' a b ta tb p hop
   refine untouched_of_agree p
-    (foldlM_hxAgree (fun h (op : OpOnB) => op.run b h) tb.tree b (fun h1 h2 op tb1 hb1 ht1 e => ?_) ops h h' tb p.hb rfl hop)
+    (Writes.foldlM_hxAgree (fun h (op : OpOnB) => op.run b h) tb.tree b (fun h1 h2 op tb1 hb1 ht1 e => ?_) ops h h' tb p.hb rfl hop)
   rw [← ht1]
   cases op with
   | purge => exact Hexital.purge_agree h1 h2 b tb1 hb1 e
@@ -125,18 +92,10 @@ theorem program_other (ops : List OpOnB) :
 
 /-! ### (c) presence / absence / order of other members -/
 
-/-- the names written by every member of `ms` other than the one named `nm` -/
-def othersNames (nm : String) (ms : List (Member F)) : List String :=
-  ms.flatMap fun m => if m.tree.name = nm then [] else m.tree.allNames
-
-omit [PyF F] in
-theorem othersNames_spec (nm : String) (ms : List (Member F)) (m : Member F) (hm : m ∈ ms)
-    (hn : m.tree.name ≠ nm) : ∀ k, k ∈ m.tree.allNames → k ∈ othersNames nm ms :=
-  fun k hk => List.mem_flatMap.2 ⟨m, hm, by simp [hn, hk]⟩
-
 /-- **The readings of `a` do not depend on which other members are registered, on the order, or on
 what is done to the others.**  Two Hexitals built from the same candles with member lists `ms₁`, `ms₂`
-that both contain `a` (without a timeframe of its own) and driven with programs `ops₁`, `ops₂` that act
+that both contain `a` (on the default manager or on the manager of its own timeframe – `hs₁`, `hs₂`:
+members sharing `a`'s timeframe name share its timeframe) and driven with programs `ops₁`, `ops₂` that act
 alike on `a` (`hsame`: the standalone twin of `a` ends in the same state – e.g. the same program, or
 programs that differ by `add_indicator` / `remove_indicator` / `purge` / `recalculate` of OTHER members)
 return, for every reading name of `a`, the same column; and store, under every name of `a`'s tree, the
@@ -144,12 +103,16 @@ same readings on the same collapsed candles.  `N₁`, `N₂` bound the names of 
 ever appear (constructor and `add_indicator`). -/
 theorem presence (cfg : MgrCfg) (tf : Option String) (init : List (Candle F)) (ms₁ ms₂ : List (Member F))
     (a : Member F) (N₁ N₂ : List String) (ops₁ ops₂ : List (TwinOp F)) (H₁ H₂ : Hexital F)
-    (h₁ : a ∈ Hexital.dedupe ms₁) (h₂ : a ∈ Hexital.dedupe ms₂) (hatf : a.tfName = none)
+    (h₁ : a ∈ Hexital.dedupe ms₁) (h₂ : a ∈ Hexital.dedupe ms₂)
+    (hs₁ : ∀ m, m ∈ Hexital.dedupe ms₁ → m.tfName = a.tfName → a.tfName.getD defaultKey ≠ defaultKey →
+      m.tfSecs = a.tfSecs)
+    (hs₂ : ∀ m, m ∈ Hexital.dedupe ms₂ → m.tfName = a.tfName → a.tfName.getD defaultKey ≠ defaultKey →
+      m.tfSecs = a.tfSecs)
     (ho₁ : ∀ k, k ∈ othersNames a.tree.name (Hexital.dedupe ms₁) → k ∈ N₁)
     (ho₂ : ∀ k, k ∈ othersNames a.tree.name (Hexital.dedupe ms₂) → k ∈ N₂)
     (hok₁ : TreeOK N₁ a.tree) (hok₂ : TreeOK N₂ a.tree)
     (hops₁ : ∀ op, op ∈ ops₁ → op.OK N₁ a.tree.name) (hops₂ : ∀ op, op ∈ ops₂ → op.OK N₂ a.tree.name)
-    (hsame : runTwin a.tree cfg init ops₁ = runTwin a.tree cfg init ops₂)
+    (hsame : runTwin a cfg tf init ops₁ = runTwin a cfg tf init ops₂)
     (hr₁ : runHexital cfg tf init ms₁ ops₁ = .ok H₁) (hr₂ : runHexital cfg tf init ms₂ ops₂ = .ok H₂) :
     (∀ name, (splitDot name).headD "" = a.tree.name → readOK N₁ name = true → readOK N₂ name = true →
         H₁.readingAsList name = H₂.readingAsList name) ∧
@@ -157,13 +120,12 @@ theorem presence (cfg : MgrCfg) (tf : Option String) (init : List (Candle F)) (m
         dlookup a.tree.name H₂.indicators = some hi₂ ∧ dlookup hi₂.mgrKey H₂.managers = some m₂ ∧
         m₁.candles.map Candle.core = m₂.candles.map Candle.core ∧
         ∀ k, k ∈ a.tree.allNames → storedUnder k m₁.candles = storedUnder k m₂.candles) := by
-  obtain ⟨t₁, e₁, ht₁, inv₁⟩ := member_twin cfg tf init ms₁ a ops₁ H₁ h₁ hatf
+  obtain ⟨t₁, e₁, ht₁, inv₁⟩ := member_twin cfg tf init ms₁ a ops₁ H₁ h₁ hs₁
     (fun m hm hn k hk => ho₁ k (othersNames_spec _ _ m hm hn k hk)) hok₁ hops₁ hr₁
-  obtain ⟨t₂, e₂, ht₂, inv₂⟩ := member_twin cfg tf init ms₂ a ops₂ H₂ h₂ hatf
+  obtain ⟨t₂, e₂, ht₂, inv₂⟩ := member_twin cfg tf init ms₂ a ops₂ H₂ h₂ hs₂
     (fun m hm hn k hk => ho₂ k (othersNames_spec _ _ m hm hn k hk)) hok₂ hops₂ hr₂
   have : t₁ = t₂ := by
     have e := hsame
-    unfold runTwin at e
     rw [e₁, e₂] at e; cases e; rfl
   subst this
   refine ⟨fun name hp r₁ r₂ => (inv₁.column name hp r₁).trans (inv₂.column name hp r₂).symm, ?_⟩
@@ -172,23 +134,36 @@ theorem presence (cfg : MgrCfg) (tf : Option String) (init : List (Candle F)) (m
   exact ⟨hi₁, m₁, hi₂, m₂, a1, a3, b1, b3, a5.trans b5.symm,
     fun k hk => (a6 k (ht₁ ▸ hk)).trans (b6 k (ht₁ ▸ hk)).symm⟩
 
-/-- **General statement (not proved).**  As `presence`, but (i) without the restriction that `a` has no
-timeframe of its own – a member with a timeframe lives on a manager that is created, when the member is
-attached, from the default manager's candles: the proof needs that this creation commutes with dropping
-the other members' readings (expected to hold: a fresh Hexital carries no readings; after `add_indicator` on a
-calculated Hexital the new manager is built from reset candles) – which `member_twin` does not cover
-(its twin is a standalone indicator over the default manager's configuration). -/
+/-- **General statement (not proved).**  As `presence`, but `a` need not be handed to the constructor: it
+is enough that it is registered at the end (it may have been added by `add_indicator` at different
+points of the two programs).  `member_twin` does not cover this: its twin exists from the construction
+on.  A member added later is calculated in one batch over candles that were appended one by one
+before, so the statement additionally needs schedule independence (C01: incremental = batch) for
+`a`'s tree, and – for a member with its own timeframe added to a calculated Hexital – that the new
+manager is built from candles without the other members' readings (true unless the member's timeframe
+is the Hexital's own, where `_validate_indicators` copies the default manager's candles as they are). -/
 def presence_FULL : Prop :=
   ∀ {F : Type} [PyF F] (cfg : MgrCfg) (tf : Option String) (init : List (Candle F)) (ms₁ ms₂ : List (Member F))
     (a : Member F) (N₁ N₂ : List String) (ops₁ ops₂ : List (TwinOp F)) (H₁ H₂ : Hexital F),
-    a ∈ Hexital.dedupe ms₁ → a ∈ Hexital.dedupe ms₂ →
-    (∀ k, k ∈ othersNames a.tree.name (Hexital.dedupe ms₁) → k ∈ N₁) →
-    (∀ k, k ∈ othersNames a.tree.name (Hexital.dedupe ms₂) → k ∈ N₂) →
+    (∀ m, m ∈ Hexital.dedupe ms₁ → m.tree.name ≠ a.tree.name → ∀ k, k ∈ m.tree.allNames → k ∈ N₁) →
+    (∀ m, m ∈ Hexital.dedupe ms₂ → m.tree.name ≠ a.tree.name → ∀ k, k ∈ m.tree.allNames → k ∈ N₂) →
     TreeOK N₁ a.tree → TreeOK N₂ a.tree →
-    (∀ op, op ∈ ops₁ → op.OK N₁ a.tree.name) → (∀ op, op ∈ ops₂ → op.OK N₂ a.tree.name) →
-    ops₁.filter (fun op => match op with | .add _ => false | .remove (some _) => false | _ => true)
-      = ops₂.filter (fun op => match op with | .add _ => false | .remove (some _) => false | _ => true) →
-    runHexital cfg tf init ms₁ ops₁ = .ok H₁ → runHexital cfg tf init ms₂ ops₂ = .ok H₂ →
+    -- added members: `a` itself or members writing under `N`; `a` is never removed
+    (∀ op, op ∈ ops₁ → match op with
+      | .add ms => ∀ m, m ∈ Hexital.dedupe ms → m = a ∨ (m.tree.name ≠ a.tree.name ∧ ∀ k, k ∈ m.tree.allNames → k ∈ N₁)
+      | .remove (some b) => b ≠ a.tree.name
+      | _ => True) →
+    (∀ op, op ∈ ops₂ → match op with
+      | .add ms => ∀ m, m ∈ Hexital.dedupe ms → m = a ∨ (m.tree.name ≠ a.tree.name ∧ ∀ k, k ∈ m.tree.allNames → k ∈ N₂)
+      | .remove (some b) => b ≠ a.tree.name
+      | _ => True) →
+    -- the same candles are fed, in the same chunks
+    ops₁.filterMap (fun op => match op with | .append new => some new | _ => none)
+      = ops₂.filterMap (fun op => match op with | .append new => some new | _ => none) →
+    runHexital cfg tf init ms₁ (ops₁ ++ [.calculate none]) = .ok H₁ →
+    runHexital cfg tf init ms₂ (ops₂ ++ [.calculate none]) = .ok H₂ →
+    (∃ hi, dlookup a.tree.name H₁.indicators = some hi ∧ hi.tree = a.tree) →
+    (∃ hi, dlookup a.tree.name H₂.indicators = some hi ∧ hi.tree = a.tree) →
     ∀ name, (splitDot name).headD "" = a.tree.name → readOK N₁ name = true → readOK N₂ name = true →
       H₁.readingAsList name = H₂.readingAsList name
 
@@ -209,26 +184,6 @@ def exB : Member Int := { tree := mkTop (.rsi 2 "close") "RSI_2" 4, tfName := no
 def exHex : PyM (Hexital Int) := do
   let h ← Hexital.init {} none exCandles [exA, exB]
   h.calculate none
-
-def isOk {α : Type} : PyM α → Bool
-  | .ok _ => true
-  | .error _ => false
-
-/-- decidable form of `Pair` -/
-def pairB (h : Hexital Int) (a b : String) : Bool :=
-  match dlookup a h.indicators, dlookup b h.indicators with
-  | some ta, some tb => ta.tree.allNames.all fun k => !tb.tree.allNames.contains k
-  | _, _ => false
-
-theorem pair_of_pairB (h : Hexital Int) (a b : String) (hp : pairB h a b = true) :
-    ∃ ta tb, Pair h a b ta tb := by
-  unfold pairB at hp
-  split at hp
-  · rename_i ta tb ha hb
-    refine ⟨ta, tb, ha, hb, fun k hk => ?_⟩
-    have := (List.all_eq_true.1 hp) k hk
-    simpa using this
-  · cases hp
 
 /-- the hypotheses of `purge_other`, `calculate_other`, `calculateIndex_other`, `recalculate_other`,
 `removeIndicator_other` and `program_other` hold together on the example (and the name sets are
@@ -277,13 +232,39 @@ example :
      isOk (runHexital {} none exCandles [exA] (TwinOp.add [exB] :: exOps)) = true ∧
      isOk (runHexital {} none exCandles [exA, exB] exOps) = true ∧
      isOk (runHexital {} none exCandles [exB, exA] exOps) = true) ∧
-    runTwin exA.tree {} exCandles (TwinOp.add [exB] :: exOps) = runTwin exA.tree {} exCandles exOps := by
+    runTwin exA {} none exCandles (TwinOp.add [exB] :: exOps) = runTwin exA {} none exCandles exOps := by
   refine ⟨⟨?_, ?_, ?_⟩, ?_, ?_⟩
   · simp [Hexital.dedupe, dset]
   · simp [Hexital.dedupe, exA, exB, mkTop, Ind.name, dset]
   · simp [Hexital.dedupe, exA, exB, mkTop, Ind.name, dset]
   · decide +kernel
   · simp [runTwin, TwinOp.runInd]
+
+/-- the same with timeframes: `SMA_2_T2` and `RSI_2_T2` share the manager of timeframe `T2` (120 s), `SMA_2`
+sits on the default manager; stamped candles one minute apart -/
+def exStamped (k : Nat) : Candle Int := { exCandle (10 + (k : Int) % 5) with ts := some (60 * (k : Int)) }
+def exStream : List (Candle Int) := (List.range 8).map exStamped
+def exAT : Member Int := { tree := mkTop (.sma 2 "close") "SMA_2_T2" 4, tfName := some "T2", tfSecs := some 120 }
+def exBT : Member Int := { tree := mkTop (.rsi 2 "close") "RSI_2_T2" 4, tfName := some "T2", tfSecs := some 120 }
+def exOpsT : List (TwinOp Int) :=
+  [.calculate none, .append [exStamped 8, exStamped 9], .purge (some "RSI_2_T2"), .append [exStamped 10],
+   .recalculate (some "SMA_2_T2")]
+
+example :
+    (exAT ∈ Hexital.dedupe [exAT] ∧ exAT ∈ Hexital.dedupe [exBT, exA, exAT]) ∧
+    ((Hexital.dedupe [exBT, exA, exAT]).all (fun m => m.tfName != exAT.tfName || m.tfSecs == exAT.tfSecs) = true ∧
+     (othersNames "SMA_2_T2" (Hexital.dedupe [exBT, exA, exAT])).all
+        (exBT.tree.allNames ++ exA.tree.allNames).contains = true ∧
+     treeOKb (exBT.tree.allNames ++ exA.tree.allNames) exAT.tree = true ∧
+     isOk (runHexital {} none exStream [exAT] exOpsT) = true ∧
+     isOk (runHexital {} none exStream [exBT, exA, exAT] exOpsT) = true ∧
+     (match runTwin exAT {} none exStream exOpsT with
+      | .ok twin => (twin.asList none).map Val.isNone
+      | .error _ => []) = [true, false, false, false, false, false]) := by
+  refine ⟨⟨?_, ?_⟩, ?_⟩
+  · simp [Hexital.dedupe, dset]
+  · simp [Hexital.dedupe, exA, exAT, exBT, mkTop, Ind.name, dset]
+  · decide +kernel
 
 end Examples
 
